@@ -22,6 +22,10 @@ type uciSession struct {
 	lines []string
 	times []time.Time
 	done  chan struct{}
+	// gate, when armed, runs once while the engine is still writing its next bestmove line (the
+	// reader has taken the first bytes of the line and the writer is blocked on the rest): a GUI
+	// that answers a bestmove at once
+	gate func()
 }
 
 func newUciSession() *uciSession {
@@ -33,13 +37,40 @@ func newUciSession() *uciSession {
 	u.OutIo = bufio.NewWriter(outW)
 	s := &uciSession{u: u, in: inW, done: make(chan struct{})}
 	go func() {
-		sc := bufio.NewScanner(outR)
-		sc.Buffer(make([]byte, 1<<20), 1<<20)
-		for sc.Scan() {
+		var cur []byte
+		big := make([]byte, 1<<16)
+		for {
 			s.mu.Lock()
-			s.lines = append(s.lines, sc.Text())
-			s.times = append(s.times, time.Now())
+			armed := s.gate != nil
 			s.mu.Unlock()
+			buf := big
+			if armed {
+				buf = big[:8] // small reads: the writer stays blocked inside its line
+			}
+			n, err := outR.Read(buf)
+			for _, b := range buf[:n] {
+				if b == '\n' {
+					s.mu.Lock()
+					s.lines = append(s.lines, strings.TrimRight(string(cur), "\r"))
+					s.times = append(s.times, time.Now())
+					s.mu.Unlock()
+					cur = cur[:0]
+				} else {
+					cur = append(cur, b)
+				}
+			}
+			if armed && len(cur) >= 8 && strings.HasPrefix(string(cur), "bestmove") {
+				s.mu.Lock()
+				g := s.gate
+				s.gate = nil
+				s.mu.Unlock()
+				if g != nil {
+					g()
+				}
+			}
+			if err != nil {
+				return
+			}
 		}
 	}()
 	go func() { u.Loop(); close(s.done) }()
@@ -80,6 +111,12 @@ func (s *uciSession) last(prefix string) string {
 		}
 	}
 	return ""
+}
+
+func (s *uciSession) linesSince(i int) []string {
+	s.mu.Lock()
+	defer s.mu.Unlock()
+	return append([]string{}, s.lines[i:]...)
 }
 
 func (s *uciSession) sync() bool { // isready/readyok round trip
@@ -523,6 +560,49 @@ func c12Monitor(args []string) int {
 			if strip(a) != strip(b) && optionsAtDefault(cfg) {
 				_ = same
 				rep.Violate("ucinewgame-differs-from-fresh-engine", in(), "after ucinewgame: "+strip(a)+" ; fresh engine: "+strip(b))
+			}
+		}
+		// the GUI answers a bestmove while the line is still being written: the next search must not
+		// inherit anything from the one that is just reporting
+		if rng.Chance(60) {
+			before := s.count("bestmove")
+			fen := corpus[rng.Intn(len(corpus))]
+			if p, _ := position.NewPositionFen(fen); p != nil && len(wk.legalMoves(p)) > 1 && !p.HasInsufficientMaterial() && p.HalfMoveClock() < 90 {
+				mode := []string{"go infinite", "go ponder wtime 60000 btime 60000", "go depth 6"}[rng.Intn(3)]
+				s.mu.Lock()
+				s.gate = func() {
+					s.send("position fen " + fen)
+					s.send(mode)
+					time.Sleep(150 * time.Millisecond)
+				}
+				s.mu.Unlock()
+				mark := len(s.linesSince(0))
+				do("position startpos")
+				do("go depth 2")
+				script = append(script, "(while the bestmove line is being written:) position fen "+fen, mode)
+				rep.Cases++
+				rep.Stats["go_while_bestmove_is_written"]++
+				if !s.waitCount("bestmove", before+1, 30*time.Second) {
+					rep.Violate("no-bestmove", in(), "depth search before the gated go")
+				} else if mode != "go depth 6" {
+					time.Sleep(400 * time.Millisecond)
+					if s.count("bestmove") > before+1 {
+						rep.Violate("bestmove-before-stop", in(), mode+" sent while the previous bestmove line was being written answered without stop")
+					}
+					do("stop")
+					if !s.waitCount("bestmove", before+2, 10*time.Second) {
+						rep.Violate("no-bestmove", in(), "after stop of the gated "+mode)
+					}
+				} else {
+					if !s.waitCount("bestmove", before+2, 60*time.Second) {
+						rep.Violate("no-bestmove", in(), "gated go depth 6")
+					} else if !strings.Contains(strings.Join(s.linesSince(mark), "\n"), "info depth 6 ") {
+						rep.Violate("bestmove-count", in(), "go depth 6 sent while the previous bestmove line was being written ended before depth 6")
+					}
+				}
+				s.mu.Lock()
+				s.gate = nil
+				s.mu.Unlock()
 			}
 		}
 		s.quit()
